@@ -72,7 +72,7 @@ InitSt(S) ==
    pc      |-> [h \in HostSet(S) |-> IdlePc],     \* request in flight
    fs      |-> [h \in HostSet(S) |-> FALSE],      \* in-flight request saw a foreign owner
    watches |-> {},                                \* [h, p, c]: data watch of h's service
-   claimed |-> [h \in HostSet(S) |-> {}],         \* <<p, c>>: c registered p, node still there
+   claimed |-> [h \in HostSet(S) |-> <<>>],       \* path -> container entitled to the node (Claim)
    order   |-> <<>>,                              \* containers in submission order
    placed  |-> [h \in HostSet(S) |-> {}],         \* instances ever placed on the host
    where   |-> [c \in ContSet(S) |-> ""],         \* host a container was started on
@@ -205,11 +205,26 @@ Fire(S, st_, ord) ==
   [st_ EXCEPT !.queue = [h \in HostSet(S) |-> st_.queue[h] \o Touches(st_, h, ord)],
               !.watches = {w \in @ : w.c \notin Range(ord)}]
 
+(* History variable for NewerKept: the container entitled to the node p of    *)
+(* this service.  A container that registers p becomes entitled to it, unless *)
+(* p is held by a more recent container of the instance whose request still   *)
+(* exists: then the older one merely "steals" the registration.               *)
+Claim(S, st_, h, p, c) ==
+  LET cl == st_.claimed[h] IN
+  IF p \in DOMAIN cl /\ cl[p] # c /\ cl[p] \in st_.active[h] /\ Newer(S, cl[p], c)
+  THEN cl ELSE Put(cl, p, c)
+
+Stolen(S, st_, h, p, c) ==
+  LET cl == st_.claimed[h] IN
+  p \in DOMAIN cl /\ cl[p] # c /\ cl[p] \in st_.active[h] /\ Newer(S, cl[p], c)
+
+DropAll(f, ps) == [q \in DOMAIN f \ ps |-> f[q]]
+
 (* after the current path of a create request is done (registered)            *)
 Registered(S, st_, h) ==
   LET pc == st_.pc[h]
       p == CurPath(S, st_, h)
-      s1 == [st_ EXCEPT !.reg[h] = Put(@, p, pc.c), !.claimed[h] = @ \cup {<<p, pc.c>>}] IN
+      s1 == [st_ EXCEPT !.reg[h] = Put(@, p, pc.c), !.claimed[h] = Claim(S, st_, h, p, pc.c)] IN
   [s1 EXCEPT !.pc[h] = CreatePc(S, s1, h, pc.c, pc.idx + 1)]
 
 (* after the current path of a delete request is done (forgotten)             *)
@@ -256,10 +271,9 @@ CallDo(S, st_, h, ord) ==
     [] pc.ph = "ddel" ->
          IF ~ex THEN Forgotten(S, s0, h)
          ELSE LET regc == IF p \in DOMAIN st_.reg[h] THEN st_.reg[h][p] ELSE ""
-                  stole == \E q \in st_.claimed[h] :
-                              q[1] = p /\ q[2] \in st_.active[h] /\ Newer(S, q[2], pc.c)
+                  stole == Stolen(S, st_, h, p, pc.c)
                   s1 == [s0 EXCEPT !.nodes = Drop(@, p),
-                                   !.claimed = [h2 \in HostSet(S) |-> {q \in @[h2] : q[1] # p}],
+                                   !.claimed = [h2 \in HostSet(S) |-> DropAll(@[h2], {p})],
                                    !.last.w = [op |-> "delete", path |-> p, o |-> own],
                                    !.last.regc = regc, !.last.stole = stole,
                                    !.last.await = IF ord = <<>> THEN {} ELSE {p}] IN
@@ -287,7 +301,7 @@ CanExpire(S, st_, h, word) ==
 ExpireDo(S, st_, h, word) ==
   LET gone == Gone(st_, h)
       s1 == [st_ EXCEPT !.nodes = [q \in DOMAIN st_.nodes \ gone |-> st_.nodes[q]],
-                        !.claimed = [h2 \in HostSet(S) |-> {q \in @[h2] : q[1] \notin gone}],
+                        !.claimed = [h2 \in HostSet(S) |-> DropAll(@[h2], gone)],
                         !.watches = {w \in @ : w.h # h},
                         !.sess[h] = 0,
                         !.reg[h] = <<>>,
@@ -321,7 +335,7 @@ CrashDo(S, st_, h) ==
               !.watches = {w \in @ : w.h # h},
               !.sess[h] = 0,
               !.reg[h] = <<>>,
-              !.claimed[h] = {},
+              !.claimed[h] = <<>>,
               !.pc[h] = [IdlePc EXCEPT !.ph = "down"],
               !.fs[h] = FALSE,
               !.queue[h] = <<>>,
@@ -336,7 +350,7 @@ CanReap(S, st_, s, word) == s \in st_.linger /\ word \in Orders(FiredOn(st_, Ses
 (* removal of the nodes ps by someone who is no presence service *)
 Vanish(S, st_, ps, word) ==
   Fire(S, [st_ EXCEPT !.nodes = [q \in DOMAIN st_.nodes \ ps |-> st_.nodes[q]],
-                      !.claimed = [h2 \in HostSet(S) |-> {q \in @[h2] : q[1] \notin ps}],
+                      !.claimed = [h2 \in HostSet(S) |-> DropAll(@[h2], ps)],
                       !.last = [NoLast EXCEPT !.await = IF word = <<>> THEN {} ELSE ps]],
        word)
 
@@ -442,9 +456,9 @@ Waits ==
 OwnOnly == st.last.rk = "delete" /\ st.last.w.op = "delete" => st.last.regc = st.last.rc
 
 (* C17.newerKept (the consequence the statement draws from ownOnly): the      *)
-(* clean-up of a container never deletes a node that a newer container of     *)
-(* the same instance, whose request still exists on that host, has            *)
-(* registered.  Violated by the unrepaired behaviour ("olderSteals").         *)
+(* clean-up of a container never deletes a node to which a newer container of *)
+(* the same instance, whose request still exists on that host, is entitled    *)
+(* (Claim).  Violated by the unrepaired behaviour ("olderSteals").            *)
 NewerKept == ~st.last.stole
 
 (* sanity of the model itself: a request never finds its own node missing     *)
